@@ -55,7 +55,9 @@ PRedirect(n) == {[name |-> n, kind |-> "lit", exec |-> TRUE, req |-> r, rd |-> t
 
 BNode(n, c) == [name |-> n, kind |-> Kind(n), exec |-> FALSE, req |-> "", rd |-> "", ch |-> c]
 BTop(n) == {BNode(n, c) : c \in KidSets({BNode(m, {}) : m \in BackSub})}
-BackRoots == KidSets(UNION {BTop(n) : n \in TopNames})
+\* a backend alias redirecting to another of the backend's own root commands (vanilla /tp -> /teleport)
+BRedirect(n) == {[name |-> n, kind |-> "lit", exec |-> FALSE, req |-> "", rd |-> t, ch |-> {}] : t \in TopNames \ {n}}
+BackRoots == KidSets(UNION {BTop(n) \cup BRedirect(n) : n \in TopNames})
 SmallBackRoots == IF BackPairs THEN BackRoots
                   ELSE {{}} \cup {{b} : b \in UNION {BTop(n) : n \in {"x", "y"}}}
 
@@ -93,12 +95,16 @@ Out(n, P, root, rs, inroot, anc) ==
 
 FilteredRS(proxy, P, rs) == {Out(n, P, proxy, rs, FALSE, {n.name}) : n \in {n \in proxy : Pass(n, P)}}
 Filtered(proxy, P) == FilteredRS(proxy, P, "copy")
-RECURSIVE BOut(_)
-BOut(b) == [name |-> b.name, kind |-> b.kind, exec |-> b.exec, ch |-> {BOut(c) : c \in b.ch}, rt |-> {}]
+\* a backend node is kept as it is: its children, and where its redirect leads in the BACKEND's tree
+\* (also when the proxy replaced that target at the top level)
+RECURSIVE BOutIn(_, _)
+BOutIn(b, bk) == [name |-> b.name, kind |-> b.kind, exec |-> b.exec, ch |-> {BOutIn(c, bk) : c \in b.ch},
+                  rt |-> IF b.rd = "" THEN {}
+                         ELSE {BOutIn(t, bk) : t \in {t \in bk : t.name = b.rd /\ t.rd = ""}}]
 
 MergeRS(backend, proxy, P, rs) ==
     LET F == FilteredRS(proxy, P, rs) IN
-      {BOut(b) : b \in {b \in backend : b.name \notin {f.name : f \in F}}} \cup F
+      {BOutIn(b, backend) : b \in {b \in backend : b.name \notin {f.name : f \in F}}} \cup F
 Merge(backend, proxy, P) == MergeRS(backend, proxy, P, "copy")
 
 ----------------------------------------------------------------------------
@@ -166,8 +172,8 @@ EveryUsableProxyNodeShown == \A p \in InPaths(proxy) : PassAlong(p, proxy) => p 
 NamesDistinct == \A a, b \in Result : a.name = b.name => a = b
 ProxyReplacesBackend == \A n \in proxy : Pass(n, perms) => \E m \in Result : m.name = n.name /\ m.exec
 BackendKept == \A b \in backend :
-                  (~\E n \in proxy : n.name = b.name /\ Pass(n, perms)) => BOut(b) \in Result
-NothingElse == \A m \in Result : m.exec \/ \E b \in backend : BOut(b) = m
+                  (~\E n \in proxy : n.name = b.name /\ Pass(n, perms)) => BOutIn(b, backend) \in Result
+NothingElse == \A m \in Result : m.exec \/ \E b \in backend : BOutIn(b, backend) = m
 
 Emit == (Export /\ phase = "case") =>
            PrintT(<<"CASE", ToJson([perms |-> perms, perms2 |-> perms2, proxy |-> proxy, backend |-> backend])>>)
